@@ -102,6 +102,7 @@ type Profile struct {
 	ValidOnly bool
 	RoundOnly bool // only grids whose extent divides evenly at the deepest requested level
 	AllIDs    bool // request the whole window instead of a random subset
+	NoBig     bool // never draw the large generator
 	MinIDs    int
 }
 
@@ -155,6 +156,9 @@ func genSnapCase(rng *fw.Rng, pr *Profile) (*SnapCase, string) {
 		return nil, "q=0"
 	}
 	kind := fw.Pick(rng, pr.Kinds)
+	if !pr.NoBig && rng.Chance(1, 40) {
+		kind = "big" // structured / large inputs at a low rate (they cost 50-500x a small case)
+	}
 	W := int64(12 + rng.Intn(40))
 	var lp gen.Poly
 	var rings [][]P
